@@ -1119,6 +1119,17 @@ static void on_asan_report(const char *text) {
 
 static vout_t g_vout;
 
+/* CPU-time budget per case: 1 s by default; the runner lowers it (C13_ALARM_MS)
+ * only after it has already confirmed hangs at the 1 s budget. */
+static long g_alarm_ms = 1000;
+static void arm_case(void) {
+	struct itimerval it;
+	memset(&it, 0, sizeof(it));
+	it.it_value.tv_sec = (g_alarm_ms / 1000);
+	it.it_value.tv_usec = ((g_alarm_ms % 1000) * 1000);
+	setitimer(ITIMER_VIRTUAL, &it, NULL);
+}
+
 static void emit_marker(size_t idx, int code) {
 	char line[96];
 	uint8_t marker[8];
@@ -1179,7 +1190,7 @@ static int main_fork(void) {
 		if (0 == pid) {
 			for (i = next; i < n; i++) {
 				progress[0] = (uint32_t)i;
-				vdrv_arm();
+				arm_case();
 				one_case(cs[i], ls[i], i);
 				progress[1] = (uint32_t)(i + 1);
 			}
@@ -1205,13 +1216,16 @@ int main(int argc, char **argv) {
 	uint8_t *c; size_t len;
 
 	memset(&g_vout, 0, sizeof(g_vout));
-	vdrv_case_secs = 5;
+	vdrv_case_secs = 1; /* CPU seconds; a case needs microseconds */
 	vdrv_init();
 	dhcp4_static_init();
 	__asan_set_error_report_callback(on_asan_report);
+	if (NULL != getenv("C13_ALARM_MS") && 10 <= atol(getenv("C13_ALARM_MS")))
+		g_alarm_ms = atol(getenv("C13_ALARM_MS"));
 	if (argc > 1 && 0 == strcmp(argv[1], "--fork"))
 		return main_fork();
 	while (NULL != (c = vdrv_next_case(&len))) {
+		arm_case();
 		one_case(c, len, 0);
 		free(c);
 	}
